@@ -19,12 +19,12 @@ type retCase struct {
 	Shape   string `json:"shape"`
 	Int     int    `json:"int,omitempty"`
 	Str     core.B `json:"str,omitempty"`
-	Nil     bool   `json:"nil,omitempty"`      // nil slice / nil pointer / nil interface instead of Str
-	Err     string `json:"err,omitempty"`      // "" nil | new | custom | wrapped
-	ErrMsg  core.B `json:"err_msg,omitempty"`  //
-	Pos     int    `json:"pos"`                // number of silent handlers before it
-	Reflect bool   `json:"reflective"`         // add an injected parameter so that the built-in fast path cannot apply
-	Custom  string `json:"custom,omitempty"`   // "" | app | request : a custom ReturnHandler is registered there
+	Nil     bool   `json:"nil,omitempty"`     // nil slice / nil pointer / nil interface instead of Str
+	Err     string `json:"err,omitempty"`     // "" nil | new | custom | wrapped
+	ErrMsg  core.B `json:"err_msg,omitempty"` //
+	Pos     int    `json:"pos"`               // number of silent handlers before it
+	Reflect bool   `json:"reflective"`        // add an injected parameter so that the built-in fast path cannot apply
+	Custom  string `json:"custom,omitempty"`  // "" | app | request : a custom ReturnHandler is registered there
 	Method  string `json:"method,omitempty"`
 }
 
